@@ -50,6 +50,9 @@ type exec struct {
 	structOK, mergeOK, nestedOK, rejectedOOR, rollbacks, copyRollbacks, copies int
 	oor                                                                        bool // an argument of the current op was outside the table
 	everMerged, everNonRect                                                    bool
+	opened, startRagged, everViolating                                         bool            // start table read from a file / with ragged rows; some state broke G3 before the call
+	preViol                                                                    map[string]bool // G3 clauses that pre violates
+	raggedRejected, raggedAccepted                                             int             // structural edits on a ragged state
 	shapeSig                                                                   []string
 }
 
@@ -182,9 +185,21 @@ func (x *exec) call(want int, decision string, cands []cand, f func() error) boo
 	return true
 }
 
+// checkInvariants is G3 after a successful call. A table read from a file can arrive with rows that do not span
+// its grid (ragged rows); no single call can be asked to repair that, so an invariant that did not hold before the
+// call is not demanded after it - every invariant that did hold must still hold (a call must not make a row ragged,
+// strip a cell of its paragraphs or orphan a continuation cell on a table that was sound in that respect).
 func (x *exec) checkInvariants(cands []cand) {
 	x.res.Eval("C09.G3")
+	counted := false
 	for _, v := range invariants(x.t) {
+		if x.preViol[v.clause] {
+			if !counted {
+				x.res.Count("G3-clause-not-demanded:violated-before-the-call", 1)
+				counted = true
+			}
+			continue
+		}
 		x.fail(v.clause, cands, "%s", v.detail)
 		return
 	}
@@ -438,6 +453,18 @@ func (x *exec) insertRow(pos int, data []string, app bool) {
 	if x.done() {
 		return
 	}
+	if x.preViol["C09.G3.span"] {
+		// G3 is not demanded of the rows that were ragged before the call; the row this call made must span the grid
+		x.res.Eval("C09.G3.span")
+		sum := 0
+		for j := range t.Rows[pos].Cells {
+			sum += span(&t.Rows[pos].Cells[j])
+		}
+		if sum != sh.G {
+			x.fail("C09.G3.span", cands, "the new row %d spans %d grid columns (%d physical cells), the grid declares %d", pos, sum, len(t.Rows[pos].Cells), sh.G)
+			return
+		}
+	}
 	if pos < sh.R && hasContinue(&pre.Rows[pos]) {
 		// the new row lies inside a vertical merge: its cells may have to join the merge (span, role, no text);
 		// the statement fixes the invariants (checked above), not which of the given data survive
@@ -538,6 +565,14 @@ func (x *exec) insertColumn(pos int, data []string, width int, app bool) {
 		}
 		cands = append(cands, cand{kfColStruct, []string{"C09.G3.vmerge"}})
 	}
+	if app {
+		for i := range sh.phys {
+			if sh.phys[i] > sh.phys[0] { // AppendColumn and a row longer than row 0
+				cands = append(cands, cand{kfAppColRow0, []string{"C09.G4.cols"}})
+				break
+			}
+		}
+	}
 	if !x.call(want, "C09.G4.decision", cands, func() error {
 		if app {
 			return t.AppendColumn(data, width)
@@ -569,16 +604,27 @@ func (x *exec) insertColumn(pos int, data []string, width int, app bool) {
 		x.fail(cl, cands, "the grid declares %d columns after inserting one into %d", len(t.Grid.Cols), sh.G)
 		return
 	}
-	if !sh.rect {
+	keptInOrder := func(i int) bool {
+		if !subseq(sigs(&pre.Rows[i]), sigs(&t.Rows[i]), 1) {
+			x.fail(cl, cands, "row %d: the pre-existing cells %v are not kept in order in %v", i, sigs(&pre.Rows[i]), sigs(&t.Rows[i]))
+			return false
+		}
+		return true
+	}
+	if !sh.rect && !sh.nospan {
 		for i := range t.Rows {
-			if !subseq(sigs(&pre.Rows[i]), sigs(&t.Rows[i]), 1) {
-				x.fail(cl, cands, "row %d: the pre-existing cells %v are not kept in order in %v", i, sigs(&pre.Rows[i]), sigs(&t.Rows[i]))
+			if !keptInOrder(i) {
 				return
 			}
 		}
 		return
 	}
-	for g := 0; g < sh.G; g++ {
+	// no cell spans more than one grid column: a column index names the same cell under every reading, the plain
+	// rows-by-columns model applies to every row that reaches the position (on ragged rows too)
+	if !sh.rect {
+		x.res.Label("ragged:column-edit-judged-by-the-plain-model")
+	}
+	for g := 0; g < sh.G && sh.rect; g++ { // on ragged rows the grid is not what the rows span: which grid column is the new one is left open
 		j := g
 		if g >= pos {
 			j = g + 1
@@ -593,11 +639,18 @@ func (x *exec) insertColumn(pos int, data []string, width int, app bool) {
 			x.fail(cl, cands, "the properties of row %d changed at %s", i, d)
 			return
 		}
-		if len(t.Rows[i].Cells) != sh.G+1 {
-			x.fail(cl, cands, "row %d has %d cells after inserting a column into %d", i, len(t.Rows[i].Cells), sh.G)
+		n := sh.phys[i]
+		if pos > n { // the row does not reach the position: the model does not say where (or whether) it gets a cell
+			if !keptInOrder(i) {
+				return
+			}
+			continue
+		}
+		if len(t.Rows[i].Cells) != n+1 {
+			x.fail(cl, cands, "row %d has %d cells after inserting a column into %d", i, len(t.Rows[i].Cells), n)
 			return
 		}
-		for g := 0; g < sh.G; g++ {
+		for g := 0; g < n; g++ {
 			j := g
 			if g >= pos {
 				j = g + 1
@@ -631,6 +684,14 @@ func (x *exec) deleteColumns(s, e int, single bool) {
 		}
 		cands = append(cands, cand{kfColStruct, []string{"C09.G3.span", "C09.G3.nonempty", "C09.G3.vmerge"}})
 	}
+	if want != mustErr {
+		for i := range sh.phys {
+			if sh.phys[i] <= e-s+1 { // the call deletes as many cells as this row has
+				cands = append(cands, cand{kfDelColEmpty, []string{"C09.G3.nonempty"}})
+				break
+			}
+		}
+	}
 	if !x.call(want, "C09.G4.decision", cands, func() error {
 		if single {
 			return t.DeleteColumn(s)
@@ -663,16 +724,26 @@ func (x *exec) deleteColumns(s, e int, single bool) {
 		x.fail(cl, cands, "the grid declares %d columns after deleting %d of %d", len(t.Grid.Cols), k, sh.G)
 		return
 	}
-	if !sh.rect {
+	remainInOrder := func(i int) bool {
+		if !subseq(sigs(&t.Rows[i]), sigs(&pre.Rows[i]), k) {
+			x.fail(cl, cands, "row %d: the remaining cells %v are not the pre-existing cells %v in order", i, sigs(&t.Rows[i]), sigs(&pre.Rows[i]))
+			return false
+		}
+		return true
+	}
+	if !sh.rect && !sh.nospan {
 		for i := range t.Rows {
-			if !subseq(sigs(&t.Rows[i]), sigs(&pre.Rows[i]), k) {
-				x.fail(cl, cands, "row %d: the remaining cells %v are not the pre-existing cells %v in order", i, sigs(&t.Rows[i]), sigs(&pre.Rows[i]))
+			if !remainInOrder(i) {
 				return
 			}
 		}
 		return
 	}
-	for g := 0; g < sh.G; g++ {
+	// no cell spans more than one grid column: the plain model applies to every row that holds the whole range
+	if !sh.rect {
+		x.res.Label("ragged:column-edit-judged-by-the-plain-model")
+	}
+	for g := 0; g < sh.G && sh.rect; g++ {
 		if g >= s && g <= e {
 			continue
 		}
@@ -690,11 +761,18 @@ func (x *exec) deleteColumns(s, e int, single bool) {
 			x.fail(cl, cands, "the properties of row %d changed at %s", i, d)
 			return
 		}
-		if len(t.Rows[i].Cells) != sh.G-k {
-			x.fail(cl, cands, "row %d has %d cells after deleting %d columns of %d", i, len(t.Rows[i].Cells), k, sh.G)
+		n := sh.phys[i]
+		if e >= n { // the row does not hold the whole range: the model does not say which of its cells go
+			if !remainInOrder(i) {
+				return
+			}
+			continue
+		}
+		if len(t.Rows[i].Cells) != n-k {
+			x.fail(cl, cands, "row %d has %d cells after deleting %d columns of %d", i, len(t.Rows[i].Cells), k, n)
 			return
 		}
-		for g := 0; g < sh.G; g++ {
+		for g := 0; g < n; g++ {
 			if g >= s && g <= e {
 				continue
 			}
